@@ -3,7 +3,7 @@
 (* projection (whitespace-insensitive search of each substring in the text).                           *)
 (*   never raises; None or a NON-EMPTY list; every substring non-blank, found in the text, and the      *)
 (*   hits found one after the other in text order; the language reported is one of those requested.     *)
-EXTENDS Naturals, Sequences, FiniteSets, TLC, Json, IOUtils
+EXTENDS Detect, FiniteSets, TLC, Json, IOUtils
 
 Tr == ndJsonDeserialize(IOEnv.TRACE_FILE)
 VARIABLE l
@@ -20,7 +20,11 @@ Verdict(r) ==
   ELSE IF r.withlang /\ Cardinality({r.hits[i].lang : i \in 1..Len(r.hits)}) # 1 THEN "more-than-one-language"
   ELSE IF r.withlang /\ r.requested # <<>> /\ ~(r.hits[1].lang \in SeqToSet(r.requested)) THEN "language-not-requested"
   ELSE "ok"
-Check(r) == LET v == Verdict(r) IN IF v = "ok" THEN TRUE ELSE PrintT(<<"REJECT", r.tid, "prop", v, r.exc>>)
+\* refinement-on-trace of the language choice (Detect.tla) for calls with several candidate languages
+DetectOK(r) == \A i \in 1..Len(r.detect) : BestLanguage(r.detect[i].cands, r.detect[i].symbolsOnly) = r.detect[i].out
+Check(r) == LET v == Verdict(r) IN
+            /\ (IF v = "ok" THEN TRUE ELSE PrintT(<<"REJECT", r.tid, "prop", v, r.exc>>))
+            /\ (IF DetectOK(r) THEN TRUE ELSE PrintT(<<"REJECT", r.tid, "abs", "language-choice", [i \in 1..Len(r.detect) |-> BestLanguage(r.detect[i].cands, r.detect[i].symbolsOnly)]>>))
 
 TInit == l = 0
 TNext == l < Len(Tr) /\ l' = l + 1 /\ Check(Tr[l + 1])
